@@ -101,21 +101,29 @@ def get (e : Enc) (src : NoteSrc) (pos : List (BitVec 64)) (index : BitVec 32) :
 /-- `buffer.append( pad, n )` : `n` bytes of the four-byte zero array `pad` -/
 def padBytes (site : String) (n : BitVec 64) : M Bytes := rdRange site (some [0, 0, 0, 0]) 0 n.toNat
 
-/-- the `std::string buffer` that `add_note` builds (`desc = none` is a null pointer) -/
+/-- `if ( len % align != 0 ) buffer.append( pad, align - len % align )` -/
+def padIf (site : String) (unaligned : Bool) (n : BitVec 64) : M Bytes :=
+  if unaligned then padBytes site n else pure []
+
+/-- the descriptor part of the buffer (`desc = none` is a null pointer) -/
+def descPart (desc : Option Bytes) (descSize : BitVec 32) : M Bytes :=
+  if note_add_has_desc desc.isNone descSize then do
+    let d ← rdRange "add_note/desc" desc 0 descSize.toNat
+    let dpad ← padIf "add_note/desc-pad" (note_add_desc_unaligned descSize note_add_align)
+      (note_add_desc_pad note_add_align descSize)
+    pure (d ++ dpad)
+  else pure []
+
+/-- the `std::string buffer` that `add_note` builds -/
 def encodeBuf (e : Enc) (type : BitVec 32) (name : Bytes) (desc : Option Bytes) (descSize : BitVec 32) :
     M Bytes := do
-  let align := note_add_align
   let nameLen := note_add_namelen (BitVec.ofNat 64 name.length)
   let head := wrField e 4 nameLen.toNat ++ wrField e 4 descSize.toNat ++ wrField e 4 type.toNat ++
     name ++ [0]
-  let npad ← if note_add_name_unaligned nameLen align then
-      padBytes "add_note/name-pad" (note_add_name_pad align nameLen) else pure []
-  if note_add_has_desc desc.isNone descSize then do
-    let d ← rdRange "add_note/desc" desc 0 descSize.toNat
-    let dpad ← if note_add_desc_unaligned descSize align then
-        padBytes "add_note/desc-pad" (note_add_desc_pad align descSize) else pure []
-    pure (head ++ npad ++ d ++ dpad)
-  else pure (head ++ npad)
+  let npad ← padIf "add_note/name-pad" (note_add_name_unaligned nameLen note_add_align)
+    (note_add_name_pad note_add_align nameLen)
+  let tail ← descPart desc descSize
+  pure (head ++ npad ++ tail)
 
 /-- `section::append_data( const std::string& )` : the length goes through `(Elf_Word)` -/
 def appendStr (b : SecBuf) (s : Bytes) : M SecBuf :=
